@@ -21,13 +21,15 @@ LEAN_MODULES = ["MpfVerif.Props.C01"]
 PROPS_FILE = "MpfVerif/Props/C01.lean"
 GEN = []
 MANIFEST = {
-  "text": "Proof on a Lean model of the event bus (registry with add/remove, _post incl. its fast path, _run_handlers with snapshot / kwargs merge / conditions / boolean and relay handling, _process_event, and process_event_queue transcribed one loop iteration at a time with its stack of deques): for ALL handler programs (handlers and callbacks that post, add and remove handlers; any priorities, conditions, kwargs) and any history, every handler list stays sorted by descending priority with registration order among equals; the loop refines a single depth-first agenda for any number of iterations (events posted during a dispatch go before everything already waiting; the loop never ends with events or callbacks left), callbacks run only when nothing is pending, last-registered first, each at most once; each dispatch calls exactly the snapshot handlers whose condition holds on the merged kwargs, in list order, handler kwargs overriding posted ones. The model is tied to mpf/core/events.py by a correspondence run on every check: generated programs are executed on the real EventManager of a real machine from boot, a delay callback, an untimed and a timed switch handler, and the observation sequences (handler id, event, ordered merged kwargs; callback id, post serial, kwargs) are compared with the model driver's; an independent recursive reference interpreter and trace monitors check the property on the implementation trace.",
-  "note": "Trusted: Lean kernel + {propext, Classical.choice, Quot.sound}; the hand-written model Model/EventBus.lean (validated only by the differential runs); asyncio call_soon eventually running process_event_queue; BoolTemplate condition evaluation is modelled as key == int. Not modelled: blocking_facility/_min_priority, monitor_events/BCP, remove_handler by method, replace_handler, exceptions raised by handlers, re-entrant calls of process_event_queue, queue events (C02).",
+  "text": "Proof on a Lean model of the event bus (registry with add_handler / remove_handler_by_key / remove_all_handlers_for_event / replace_handler / remove_handler(method) / remove_handler_by_event, _post incl. its fast path, _run_handlers with snapshot / kwargs merge / conditions / boolean and relay handling, _process_event, and process_event_queue transcribed one loop iteration at a time with its stack of deques): for ALL handler programs (handlers and callbacks that post, add, replace and remove handlers - also themselves and their peers while their own event is being dispatched; any priorities, conditions, kwargs) and any history, every handler list stays sorted by descending priority with registration order among equals; the loop refines a single depth-first agenda for any number of iterations (events posted during a dispatch go before everything already waiting; the loop never ends with events or callbacks left), callbacks run only when nothing is pending, last-registered first, each at most once; each dispatch (plain, boolean, relay) calls exactly the handlers of the snapshot taken when it begins whose condition holds on the merged kwargs, in list order, whatever the handlers do to the registry meanwhile (a peer removed or replaced before its turn is still called from the snapshot, one added meanwhile is not, nobody is skipped or called twice), handler kwargs overriding posted ones; replace_handler drops exactly the entries with the same callback (and equal kwargs if given) and places the new entry behind all entries of the same or a higher priority. The model is tied to mpf/core/events.py by a correspondence run on every check: generated programs are executed on the real EventManager of a real machine from boot, a delay callback, an untimed and a timed switch handler, and the observation sequences (handler id, event, ordered merged kwargs; callback id, post serial, kwargs) are compared with the model driver's; an independent recursive reference interpreter and trace monitors (per dispatch: called handlers are entries of the list at dispatch begin, each at most once, in priority order, and every unconditional entry not removed before its turn is called) check the property on the implementation trace.",
+  "note": "Trusted: Lean kernel + {propext, Classical.choice, Quot.sound}; the hand-written model Model/EventBus.lean (validated only by the differential runs); asyncio call_soon eventually running process_event_queue; BoolTemplate condition evaluation is modelled as key == int. Not modelled: blocking_facility/_min_priority, monitor_events/BCP, replace_handler with a condition in the event string, callbacks that are not comparable by value (functools.partial), exceptions raised by handlers, re-entrant calls of process_event_queue, queue events (C02).",
   "technique": "Lean 4 theorems (simulation of the deque stack by one agenda with a loop-head invariant, induction over steps/op lists) on a hand model + differential correspondence with the real EventManager + independent reference interpreter",
   "translated": False,
  }
 RULE = ("a case = program table (handler/callback programs as data: posts of plain/boolean/relay events with/without "
-        "callback and kwargs, add handler, remove by key, remove all) + 1-5 stimuli, each a list of actions run from a "
+        "callback and kwargs, add handler, remove by key, remove all, replace_handler, remove_handler(method), "
+        "remove_handler_by_event; 30% of the registered handlers call one of these on their own event while it is being "
+        "dispatched, aimed at themselves / a peer / an absent callback; 25% of registrations share a callback) + 1-5 stimuli, each a list of actions run from a "
         "context (boot, delay, switch, timed_switch) followed by a drain; events are levelled so every program "
         "terminates; priorities -3..3 with ties, 30% conditions, handler kwargs colliding with posted ones. "
         "non-trivial = at least one handler invocation posted a further event or changed the registry during a "
